@@ -11,7 +11,7 @@ both arguments of the symmetric MSE loss), with basis / negative / generic / one
 from ..vlib import core
 from .. import cat_common as CC
 
-KINDS = {"grad_value", "backward_error"}
+KINDS = {"second_backward", "grad_value", "backward_error"}
 
 
 def run(ctx):
